@@ -1537,6 +1537,22 @@ def _hoist_test_calls(fn: ast.AST, helpers, cls, counter: List[int]) -> int:
                             # the new inner `if` is a block of its own: handled next round
                             i += 1
                             continue
+                # `if helper(..) <op> K:` -> `_t = helper(..); if _t <op> K:`
+                if isinstance(t, ast.Compare) and len(t.ops) == 1 and isinstance(
+                        t.left, ast.Call) and isinstance(t.comparators[0], (ast.Constant,
+                                                                             ast.Name)):
+                    hc, _rc = _helper_of_call(t.left, helpers, cls)
+                    if hc is not None and hc.proc and hc.expr is None:
+                        counter[0] += 1
+                        nm = f"_t{counter[0]}"
+                        asg = ast.copy_location(ast.Assign(
+                            targets=[ast.Name(id=nm, ctx=ast.Store())], value=t.left), st)
+                        t.left = ast.copy_location(ast.Name(id=nm, ctx=ast.Load()), t.left)
+                        block.insert(i, asg)
+                        ast.fix_missing_locations(asg)
+                        n += 1
+                        i += 2
+                        continue
                 neg = isinstance(t, ast.UnaryOp) and isinstance(t.op, ast.Not)
                 c = t.operand if neg else t
                 if isinstance(c, ast.Call):
